@@ -139,6 +139,12 @@ def gen_cases(rng, tier, boost=1):
             add("below-power-of-two", str((1 << k) - 1) + "." + "9" * rng.choice([15, 16, 17, 18, 19, 20, 25, 40]))
             add("below-power-of-two", str((1 << k)) + "." + "0" * rng.choice([15, 17, 19, 25]) + "1")
             add("below-power-of-two", str(((1 << k) * 10 ** 17 - 1)) + "e-17")
+    # exponents written with leading zeros (the exponent scanner must read the VALUE, however many digits spell it)
+    for _ in range(250 * scale):
+        m = rng.choice(["1", "25", "7.5", "%d.%s" % (rng.randrange(1, 10), dl.rand_digits(rng, rng.randrange(1, 18), False)), dl.rand_digits(rng, rng.randrange(1, 22))])
+        ev = rng.choice([0, 1, 2, 5, 17, 22, 23, 40, 300, 308, 309, 324, 400, 99999])
+        zs = rng.choice([1, 2, 5, 7, 8, 9, 10, 11, 12, 16, 20, 30])
+        add("padded-exponent", rng.choice(["", "-"]) + m + rng.choice(["e", "E"]) + rng.choice(["", "+", "-", "-"]) + "0" * zs + str(ev))
     # overflow band and beyond
     for _ in range(300 * scale):
         m = "%d.%s" % (rng.randrange(1, 10), dl.rand_digits(rng, rng.randrange(1, 18), False))
